@@ -2,6 +2,7 @@ package rules
 
 import (
 	"go/ast"
+	"go/token"
 	"go/types"
 
 	"sialint/internal/cfgx"
@@ -9,7 +10,7 @@ import (
 )
 
 func init() {
-	Explanations["C01"] = "Decides structural necessary conditions of 'the best chain is valid, heaviest-known and never loses work' in chain.Manager (functions are identified by role: the method calling Store.ApplyBlock is the apply step, the one calling Store.RevertBlock the revert step, the one calling both steps the tip walker): (R1) Manager.tipState is assigned only in the apply/revert steps, after the store call; (R2) every call of the tip walker other than a rollback lies on the true edge of X.SufficientlyHeavierThan(m.tipState) and targets X.Index; (R3) from the error edge of a gated walker call every path to a return passes a rollback walker call whose target was loaded from m.tipState.Index before the first call, and all those returns carry an error; (R4) Store.ApplyBlock is reached only through the success edge of consensus.ValidateBlock(m.tipState, b, *bs) for the block fetched from the store, or through the branch where the stored supplement is non-nil; (R5) Store.AddBlock with a possibly non-nil supplement occurs only after that validation of the same block, or in the documented pre-validated entry; (R6) every access to store, tipState, txpool, onReorg, onPool in Manager methods happens with Manager.mu definitely held (lockset dataflow; unexported helpers inherit the join of their call sites; returned closures start unheld); (R7) outside the apply step and the pre-validated entry, Store.AddState/AddBlock for a submitted block lie on the success edge of consensus.ValidateOrphan for that block and on the passing side of the future-timestamp test; (R8) in the apply step Store.ApplyBlock is reached only on the side of a comparison that established block.ParentID == tipState.Index.ID. (R9) the element store's revert side is the algebraic inverse of its apply side class by class (same check as C02.R1): the supplement that a later ValidateBlock / ApplyBlock reads after a reorg is the one an independent replay would see. (R10) the store's revert step deletes (not overwrites) the best-chain index entry of the reverted height (same check as C03.R4 / C04.R4): after a failed reorg to a longer fork is rolled back, BestIndex above the tip reports nothing, as before. NOT decided: consensus validity itself (core), work arithmetic, parent linkage and replay equality of the stored chain, behaviour for duplicated/orphan/mixed batches — these need execution."
+	Explanations["C01"] = "Decides structural necessary conditions of 'the best chain is valid, heaviest-known and never loses work' in chain.Manager (functions are identified by role: the method calling Store.ApplyBlock is the apply step, the one calling Store.RevertBlock the revert step, the one calling both steps the tip walker): (R1) Manager.tipState is assigned only in the apply/revert steps, after the store call; (R2) every call of the tip walker other than a rollback lies on the true edge of X.SufficientlyHeavierThan(m.tipState) and targets X.Index; (R3) from the error edge of a gated walker call every path to a return passes a rollback walker call whose target was loaded from m.tipState.Index before the first call, and all those returns carry an error; (R4) Store.ApplyBlock is reached only through the success edge of consensus.ValidateBlock(m.tipState, b, *bs) for the block fetched from the store, or through the branch where the stored supplement is non-nil; (R5) Store.AddBlock with a possibly non-nil supplement occurs only after that validation of the same block, or in the documented pre-validated entry; (R6) every access to store, tipState, txpool, onReorg, onPool in Manager methods happens with Manager.mu definitely held (lockset dataflow; unexported helpers inherit the join of their call sites; returned closures start unheld); (R7) outside the apply step and the pre-validated entry, Store.AddState/AddBlock for a submitted block lie on the success edge of consensus.ValidateOrphan for that block and on the passing side of the future-timestamp test; (R8) in the apply step Store.ApplyBlock is reached only on the side of a comparison that established block.ParentID == tipState.Index.ID. (R9) the element store's revert side is the algebraic inverse of its apply side class by class (same check as C02.R1): the supplement that a later ValidateBlock / ApplyBlock reads after a reorg is the one an independent replay would see. (R10) the store's revert step deletes (not overwrites) the best-chain index entry of the reverted height (same check as C03.R4 / C04.R4): after a failed reorg to a longer fork is rolled back, BestIndex above the tip reports nothing, as before. (R11) the store's zero-timestamp shortcut for the ancestor timestamp and core's read of that timestamp are both read as bounds on (parent height − HardforkOak.Height); the two regions must not meet; (R10/C02.R4/C03.R4 also) every path through the store's apply and revert steps passes the Height writer and the best-index writer. NOT decided: consensus validity itself (core), work arithmetic, parent linkage and replay equality of the stored chain, behaviour for duplicated/orphan/mixed batches — these need execution."
 
 	register(&Rule{ID: "C01.R1", Prop: "C01", Floor: 2, Doc: "tip-writer: tipState assigned only in the apply/revert steps after the store call", Run: c01r1})
 	register(&Rule{ID: "C01.R2", Prop: "C01", Floor: 2, Doc: "reorg-gate: tip walker called only on the true edge of SufficientlyHeavierThan(m.tipState) for the same state", Run: c01r2})
@@ -19,6 +20,7 @@ func init() {
 	register(&Rule{ID: "C01.R6", Prop: "C01", Floor: 60, Doc: "lock discipline: guarded Manager fields are accessed only with Manager.mu held", Run: c01r6})
 	register(&Rule{ID: "C01.R8", Prop: "C01", Floor: 1, Doc: "parent linkage: the apply step applies only a block whose ParentID equals the tip's id", Run: c01r8})
 	register(&Rule{ID: "C01.R9", Prop: "C01", Floor: 16, Doc: "the store's revert side is the inverse of its apply side (the supplements later validation reads are restored exactly)", Run: c02r1})
+	register(&Rule{ID: "C01.R11", Prop: "C01", Floor: 1, Doc: "the store's zero-timestamp shortcut covers no height at which core reads the ancestor timestamp (bounds on height − Oak height derived from both comparisons)", Run: c01r11})
 	register(&Rule{ID: "C01.R10", Prop: "C01", Floor: 1, Doc: "a rolled-back reorg leaves no best-chain entries behind: the store's revert step deletes the entry above the new tip", Run: func(c *Ctx) {
 		s := getStoreRoles(c.P)
 		ph, bw := bestIndexRoles(c, s)
@@ -438,4 +440,254 @@ func c01r8(c *Ctx) {
 		}
 		ob.Check(blk != nil && f.OnlyVia(g.NodeContaining(apply.Pos()), edges), nil, "Store.ApplyBlock is reachable for a block whose ParentID was not compared with the current tip's id: a block that does not attach can be applied on top of the tip and the best chain stops being parent-linked")
 	}
+}
+
+// c01r11: the store answers "ancestor timestamp" with a zero time, without looking anything up, for heights at which
+// consensus no longer reads it (after the Oak hardfork). Both the condition under which core reads the timestamp and
+// the condition of the store's shortcut compare the parent's height with HardforkOak.Height; written as bounds on
+// d = parent height − Oak height (core reads ⇒ d ≤ R, shortcut ⇒ d ≥ L) the two regions must not meet: L > R. An
+// off-by-one here hands core a zero timestamp for the retarget at the boundary: the node computes a different
+// target than every other node (values are touched through comparisons and ±constants only, so the bounds are
+// exact).
+func c01r11(c *Ctx) {
+	// linear reading of one side of a comparison: "height" + k, or "oak" + k
+	var linear func(f *ir.Func, e ast.Expr, depth int) (kind string, k int64, ok bool)
+	linear = func(f *ir.Func, e ast.Expr, depth int) (string, int64, bool) {
+		e = ast.Unparen(e)
+		if depth > 4 {
+			return "", 0, false
+		}
+		switch t := e.(type) {
+		case *ast.SelectorExpr:
+			if t.Sel.Name != "Height" {
+				return "", 0, false
+			}
+			if in, ok := ast.Unparen(t.X).(*ast.SelectorExpr); ok {
+				switch in.Sel.Name {
+				case "Index":
+					return "height", 0, true
+				case "HardforkOak":
+					return "oak", 0, true
+				}
+			}
+		case *ast.BinaryExpr:
+			if t.Op != token.ADD && t.Op != token.SUB {
+				return "", 0, false
+			}
+			if cv, isC := f.ConstInt(t.Y); isC {
+				if kind, k, ok := linear(f, t.X, depth+1); ok {
+					if t.Op == token.SUB {
+						cv = -cv
+					}
+					return kind, k + cv, true
+				}
+			}
+			if cv, isC := f.ConstInt(t.X); isC && t.Op == token.ADD {
+				if kind, k, ok := linear(f, t.Y, depth+1); ok {
+					return kind, k + cv, true
+				}
+			}
+		case *ast.CallExpr:
+			// a method that returns such an expression of its receiver (State.childHeight)
+			if fn := f.Callee(t); fn != nil && len(t.Args) == 0 {
+				if callee := c.P.DepFunc(fn); callee != nil {
+					rets := callee.Graph().Returns()
+					if len(rets) == 1 {
+						if rs, ok := rets[0].AST.(*ast.ReturnStmt); ok && len(rs.Results) == 1 {
+							return linear(callee, rs.Results[0], depth+1)
+						}
+					}
+				}
+			}
+		case *ast.Ident:
+			if o := origin(f, t); o != ast.Expr(t) {
+				return linear(f, o, depth+1)
+			}
+		}
+		return "", 0, false
+	}
+	// bound: on edge e of a comparison node, what is known about d = height − oak: lower (d ≥ v) or upper (d ≤ v)
+	bound := func(f *ir.Func, e *cfgx.Edge) (lower bool, v int64, ok bool) {
+		if e.Cond == nil || (e.Kind != cfgx.True && e.Kind != cfgx.False) {
+			return false, 0, false
+		}
+		be, isBin := ast.Unparen(e.Cond).(*ast.BinaryExpr)
+		if !isBin {
+			return false, 0, false
+		}
+		ka, a, ok1 := linear(f, be.X, 0)
+		kb, b, ok2 := linear(f, be.Y, 0)
+		if !ok1 || !ok2 || ka == kb {
+			return false, 0, false
+		}
+		op := be.Op
+		if ka == "oak" { // oak + a OP height + b  ≡  height + b OP' oak + a
+			a, b = b, a
+			switch op {
+			case token.LSS:
+				op = token.GTR
+			case token.GTR:
+				op = token.LSS
+			case token.LEQ:
+				op = token.GEQ
+			case token.GEQ:
+				op = token.LEQ
+			}
+		}
+		if e.Kind == cfgx.False {
+			switch op {
+			case token.LSS:
+				op = token.GEQ
+			case token.GTR:
+				op = token.LEQ
+			case token.LEQ:
+				op = token.GTR
+			case token.GEQ:
+				op = token.LSS
+			default:
+				return false, 0, false
+			}
+		}
+		// height + a OP oak + b  ⇔  d OP b − a
+		switch op {
+		case token.GTR:
+			return true, b - a + 1, true
+		case token.GEQ:
+			return true, b - a, true
+		case token.LSS:
+			return false, b - a - 1, true
+		case token.LEQ:
+			return false, b - a, true
+		}
+		return false, 0, false
+	}
+	// core: where a time.Time parameter is read under a comparison with the Oak height
+	var R *int64
+	var where string
+	var coreFuncs []*ir.Func
+	cscope := c.P.Package("consensus").Types.Scope()
+	for _, name := range cscope.Names() {
+		if fo, ok := cscope.Lookup(name).(*types.Func); ok {
+			if f := c.P.DepFunc(fo); f != nil {
+				coreFuncs = append(coreFuncs, f)
+			}
+		}
+	}
+	for _, f := range coreFuncs {
+		var tparams []types.Object
+		if f.Type.Params != nil {
+			for _, fld := range f.Type.Params.List {
+				for _, nm := range fld.Names {
+					if o := f.Info().Defs[nm]; o != nil && ir.IsNamed(o.Type(), "time", "Time") {
+						tparams = append(tparams, o)
+					}
+				}
+			}
+		}
+		if len(tparams) == 0 {
+			continue
+		}
+		g := f.Graph()
+		for _, n := range g.Nodes {
+			if n.AST == nil {
+				continue
+			}
+			reads := false
+			for _, tp := range tparams {
+				// a read other than handing the parameter on to another function
+				ir.Walk(n.AST, false, func(x ast.Node) {
+					if sel, ok := x.(*ast.SelectorExpr); ok && f.ObjOf(sel.X) == tp {
+						reads = true
+					}
+					if call, ok := x.(*ast.CallExpr); ok {
+						if sel, ok := ast.Unparen(call.Fun).(*ast.SelectorExpr); ok && f.Info().Selections[sel] != nil {
+							for _, a := range call.Args {
+								if f.ObjOf(a) == tp {
+									reads = true // argument of a method of a library type (t.Sub(target))
+								}
+							}
+						}
+					}
+				})
+			}
+			if !reads {
+				continue
+			}
+			// the tightest upper bound on d among the comparison edges that dominate the read
+			for _, m := range g.Nodes {
+				if m.Block == nil || m.Block.Cond != m.AST || len(m.Succs) != 2 {
+					continue
+				}
+				for _, e := range m.Succs {
+					lower, v, ok := bound(f, e)
+					if !ok || lower || !f.OnlyVia(n, []*cfgx.Edge{e}) {
+						continue
+					}
+					c.VisitGraph(f)
+					if R == nil || v < *R {
+						v := v
+						R, where = &v, c.P.Pos(m.Pos())
+					}
+				}
+			}
+		}
+	}
+	s := getStoreRoles(c.P)
+	var at *ir.Func
+	for _, m := range s.methods {
+		if m.Obj.Name() == c.P.Method("chain", "Store", "AncestorTimestamp").Name() {
+			at = m
+		}
+	}
+	if at == nil {
+		ir.Fail("DBStore implementation of Store.AncestorTimestamp not found")
+	}
+	at = c.P.Expand(at, ir.ExpandOpt{Key: "all"})
+	g := at.Graph()
+	c.VisitGraph(at)
+	ob := c.Ob(at, "shortcut-only-where-core-ignores-the-timestamp", at.Body.Pos())
+	if R == nil {
+		ob.Unknown("core's condition for reading the ancestor timestamp (a comparison of the child height with HardforkOak.Height that dominates the read of a time.Time parameter) was not recognised")
+		return
+	}
+	shortcuts := 0
+	for _, r := range g.Returns() {
+		rs, ok := r.AST.(*ast.ReturnStmt)
+		if !ok || len(rs.Results) != 2 {
+			continue
+		}
+		cl, isLit := ast.Unparen(rs.Results[0]).(*ast.CompositeLit)
+		if !isLit || len(cl.Elts) != 0 || !ir.IsNamed(at.TypeOf(cl), "time", "Time") {
+			continue
+		}
+		if id, ok := ast.Unparen(rs.Results[1]).(*ast.Ident); !ok || id.Name != "true" {
+			continue
+		}
+		shortcuts++
+		var L *int64
+		for _, m := range g.Nodes {
+			if m.Block == nil || m.Block.Cond != m.AST || len(m.Succs) != 2 {
+				continue
+			}
+			for _, e := range m.Succs {
+				lower, v, ok := bound(at, e)
+				if !ok || !lower || !at.OnlyVia(r, []*cfgx.Edge{e}) {
+					continue
+				}
+				if L == nil || v > *L {
+					v := v
+					L = &v
+				}
+			}
+		}
+		if L == nil {
+			ob.Unknown("the zero-time return at %s is not guarded by a recognisable comparison of the block's height with HardforkOak.Height", c.P.Pos(r.Pos()))
+			return
+		}
+		if *L <= *R {
+			ob.Bad(nil, "the store returns a zero ancestor timestamp at %s for parent heights ≥ Oak%+d, but core (condition at %s) still reads the timestamp for parent heights ≤ Oak%+d: at the boundary the retarget is computed from the zero time, and this node's target differs from every other node's", c.P.Pos(r.Pos()), *L, where, *R)
+			return
+		}
+	}
+	ob.OK("%d shortcut return(s), all strictly above the last height at which core reads the timestamp", shortcuts)
 }
